@@ -68,9 +68,10 @@ def bell_by_value(ctx) -> Dict[int, str]:
 def check_correction_table(ctx):
     repo, ev = ctx.repo, ctx.ev
     b = repo.get_class(B, "Builder")
-    fn = b.methods.get(SINGLE)
-    if fn is None:
+    r_ = repo.lookup(b, SINGLE)   # (through the MRO: the method may live in a base class / mixin of Builder)
+    if r_ is None:
         raise AnalysisError(f"{SINGLE} not found")
+    owner_cls, fn = r_[0], r_[1]
     ctx.fn(f"Builder.{SINGLE}")
     byv = bell_by_value(ctx)
     params = A.param_names(fn)
@@ -86,14 +87,22 @@ def check_correction_table(ctx):
         tg = st.targets[0] if isinstance(st, ast.Assign) else st.target if isinstance(st, ast.AnnAssign) else None
         if tg is not None and A.is_self_attr(tg) and isinstance(getattr(st, "value", None), ast.Constant):
             selfrec.fields[tg.attr] = st.value.value
+    # class-level tables of the builder and its base classes (a table of corrections kept next to the emitter) are what they evaluate to
+    for k_ in repo.mro(b):
+        for an_, (_a, av_) in k_.attrs.items():
+            if an_ not in selfrec.fields and av_ is not None and not an_.startswith("__"):
+                try:
+                    selfrec.fields[an_] = C.Interp(repo, ev, C.Scenario(), None).eval(av_, {}, k_.module)
+                except (AnalysisError, C.EvalRaise):
+                    pass
     for qreg in (C.RegSym("qubit_reg_of_an_earlier_call"), C.RegSym("qubit_reg")):
         sc = C.Scenario()
         it = C.Interp(repo, ev, sc, None)
         bellrec = C.Obj(None, {"name": "bell_state"}, "future")
         try:
-            it.call_function(b.module, fn, [bellrec, qreg], {}, self_obj=selfrec)
+            it.call_function(owner_cls.module, fn, [bellrec, qreg], {}, self_obj=selfrec)
         except TypeError:
-            it.call_function(b.module, fn, [selfrec, bellrec, qreg], {})
+            it.call_function(owner_cls.module, fn, [selfrec, bellrec, qreg], {})
     arms: Dict[str, list] = {}
     current = None
     for rec in sc.recorded:
